@@ -50,6 +50,7 @@ func (p *pg) baseConfig(profile string) Config {
 		Disk:       "sim",
 		FirstIndex: firstIndexes[p.r.Intn(len(firstIndexes))],
 		OWSyncsDir: openWriterSyncsDir,
+		DefaultLog: p.r.Intn(2) == 0,
 	}
 	switch p.r.Intn(3) {
 	case 0:
